@@ -61,6 +61,12 @@ SetOpsDef == {<<"null", 0>>, <<"bool", TRUE>>, <<"bool", FALSE>>, <<"int", <<45,
               <<"uint", <<49, 56, 52, 52, 54, 55, 52, 52, 48, 55, 51, 55, 48, 57, 53, 53, 49, 54, 49, 53>>>>,
               <<"float", <<48, 46, 53>>>>, <<"str", <<122, 9>>>>, <<"str", <<>>>>}
 SetOpsSmall == {<<"null", 0>>, <<"bool", TRUE>>, <<"int", <<45, 55>>>>, <<"float", <<48, 46, 53>>>>, <<"str", <<122, 9>>>>}
+\* three-operation histories on a few documents; one replacement string is longer than the initial string buffer (128 bytes)
+LongStr == [i \in 1..150 |-> 97 + (i % 26)]
+DocsTiny == {<<<<"a", <<sa, i1, <<"o", <<<<ka, sq>>, <<kb, n>>>>>>>>>>>>, <<<<"o", <<<<ka, <<"a", <<i1, sa>>>>>>, <<kb, f25>>>>>>>>,
+             <<<<"a", <<sa, sa>>>>, <<"a", <<i1>>>>>>}
+DocsOne == {<<<<"a", <<sa, i1, <<"o", <<<<ka, sq>>, <<kb, n>>>>>>>>>>>>}
+SetOps3 == {<<"null", 0>>, <<"int", <<45, 55>>>>, <<"str", <<122, 9>>>>, <<"str", LongStr>>, <<"float", <<48, 46, 53>>>>}
 SetOpsNonFinite == {<<"float", <<78, 97, 78>>>>, <<"float", <<73, 110, 102>>>>, <<"float", <<45, 73, 110, 102>>>>, <<"float", <<48, 46, 53>>>>}
 \* every byte that must be escaped, DEL, and multi-byte UTF-8, as key and as value
 ByteStrs == {<<b>> : b \in 0..127} \cup {<<195, 169>>, <<226, 130, 172>>, <<240, 159, 152, 128>>, <<92, 34, 47, 8, 12, 10, 13, 9>>, <<1, 31, 127, 34>>}
